@@ -1552,6 +1552,15 @@ namespace cds { namespace container {
                     if ( !pOld )
                         return update_flags::failed;
 
+                    // The lock-free check that pNode has two children may be out of date:
+                    // a child can be unlinked only under pNode's lock, so re-check it now.
+                    // A node with less than two children must be unlinked, not turned into a routing node
+                    if ( child( pNode, left_child, memory_model::memory_order_acquire ) == nullptr
+                      || child( pNode, right_child, memory_model::memory_order_acquire ) == nullptr )
+                    {
+                        return update_flags::retry;
+                    }
+
                     pNode->m_pValue.store( nullptr, memory_model::memory_order_release );
                     m_stat.onMakeRoutingNode();
                 }
